@@ -529,8 +529,13 @@ def eng2(ctx: Ctx) -> None:
         raise AnalysisError("ENG-2: elaborate_frame call lost its next_inner argument")
     # (1) None -> continue
     none_if = [s for s in rest if isinstance(s, ast.If) and norm(s.test) == f"{rvar} is None"]
-    if none_if and len(none_if[0].body) == 1 and isinstance(none_if[0].body[0], ast.Continue) and rest.index(none_if[0]) == 0:
+    def _touches_queues(st: ast.AST) -> bool:
+        return any(isinstance(x, ast.Name) and x.id in ("to_unwrap", "to_elaborate") for x in ast.walk(st))
+    if none_if and len(none_if[0].body) == 1 and isinstance(none_if[0].body[0], ast.Continue) \
+            and not any(_touches_queues(s_) for s_ in rest[:rest.index(none_if[0])]):
         ctx.R.ok("ENG-2", f"{rvar} is None -> keep the rest")
+    elif none_if and len(none_if[0].body) == 1 and isinstance(none_if[0].body[0], ast.Continue):
+        ctx.R.undecided("ENG-2", "the queues are touched between the yield and the `replacement is None` test")
     elif none_if:
         ctx.R.fail("ENG-2", mod, none_if[0], "a None result must leave the remainder untouched (`continue`)", construct="None -> continue")
     else:
@@ -1296,6 +1301,11 @@ def ori_rules(ctx: Ctx) -> None:
                        construct="origin filter before Frame(...)")
         else:
             isi = [x for x in ast.walk(filt.test) if isinstance(x, ast.Call) and norm(x.func) == "isinstance" and norm(x.args[0]) == ovar]
+            if len(isi) > 1:
+                # the filter proper is the test against a tuple of types; further single-type tests are extra conditions
+                tup = [x for x in isi if isinstance(resolve_expr(mod, x.args[1]), ast.Tuple)]
+                if len(tup) == 1:
+                    isi = tup
             if len(isi) != 1:
                 ctx.R.undecided("ORI-3", "origin filter does not use a single isinstance(origin, ...) test")
             else:
@@ -1330,6 +1340,30 @@ C10 = [eng1, eng2, eng34, yf1, cont3]
 C11 = [ctx_rules, ctx5]
 C13 = [opt1, opt2, opt3, opt4, opt56, opt7, ctx_rules]
 C16 = [ori_rules]
+
+
+def eng5(ctx: Ctx) -> None:
+    """ENG-5 a frame is handed to the consumer only after elaborate_frame has run for it: in the main loop of extract_iter the
+    elaborate_frame call is on every path to `yield frame` (extract_outermost takes one frame and never resumes the generator,
+    so flags set by hooks after the yield would be missing from its result)"""
+    mod = _engine_mod(ctx)
+    fn = mod.fn("extract_iter")
+    ctx.R.saw(mod, "extract_iter")
+    main = _main_loop(fn)
+    ys = [s for s in ast.walk(main) if isinstance(s, ast.Expr) and isinstance(s.value, ast.Yield)]
+    ecall = [c for c in calls_in(main, True) if ctx.P.resolve_call(mod, c).is_pkg("_customization", "elaborate_frame")]
+    if not ys or not ecall:
+        raise AnalysisError("ENG-5: `yield frame` or the elaborate_frame call not found in the main loop")
+    g = ctx.cfg(fn)
+    header = g.node_of(main)
+    through = {g.node_of(_stmt(mod, c)).idx for c in ecall}
+    for y in ys:
+        yn = g.node_of(y)
+        if g.all_paths_pass(header, {yn.idx}, through):
+            ctx.R.ok("ENG-5", f"line {y.lineno}: `{norm(y)}` is reached only after elaborate_frame ran for the frame")
+        else:
+            ctx.R.fail("ENG-5", mod, y, "the frame is yielded on a path on which elaborate_frame has not run for it yet: a consumer that stops after this frame (extract_outermost) "
+                       "gets it without the hide / hide_line / customisations the hooks apply", construct="yield before elaborate_frame")
 
 
 def sig1(ctx: Ctx) -> None:
@@ -1367,5 +1401,5 @@ def sig1(ctx: Ctx) -> None:
         raise AnalysisError(f"SIG-1: only {n} hook registrations / calls found (>= 25 confirmed by hand)")
 
 
-C10 = C10 + [sig1]
+C10 = C10 + [sig1, eng5]
 C11 = C11 + [sig1]
